@@ -19,8 +19,7 @@ Variable nodesR : list rnode.
 
 Notation fnode := (find_node ueqb ns).
 Definition Fl : flow := flow_of U ustr ns.
-Definition Rs : st := mkSt nodesR [] [] [] [].
-Definition Rf : flow := to_flow Rs.
+Definition Rf : flow := flat_flow nodesR.
 
 Definition dest_of (d : option U) : dest := match d with Some d' => DNode (kap d') | None => DNone end.
 
@@ -109,7 +108,7 @@ Lemma flow_index u m : fnode u = Some m -> exists i, node_index Fl (ustr u) = So
 Proof. apply flow_index_gen. Qed.
 
 Lemma ref_nodes_length : List.length (f_nodes Rf) = List.length nodesR.
-Proof. apply (ref_length Rs). Qed.
+Proof. apply (ref_length nodesR). Qed.
 
 (* ---------------------------------------------------------------- the relation *)
 Inductive Rel : Flow.state -> Flow.state -> Prop :=
@@ -123,7 +122,7 @@ Lemma dest_rel d : (forall d', d = Some d' -> In d' done) ->
 Proof.
   intros Hd. destruct d as [d'|]; cbn [option_map dest_of dest_id]; [|apply Rel_end].
   pose proof (Hd d' eq_refl) as Hin. destruct (Hfn d' Hin) as (m' & Hm'). destruct (flow_index d' m' Hm') as (i & A & B).
-  unfold dest_state. rewrite A. unfold Rf. rewrite (ref_node_index Rs (kap d') (Hlt d' Hin)). apply (Rel_node d' m' i 0 Hin Hm' A B). lia.
+  unfold dest_state. rewrite A. unfold Rf. rewrite (ref_node_index nodesR (kap d') (Hlt d' Hin)). apply (Rel_node d' m' i 0 Hin Hm' A B). lia.
 Qed.
 
 (* what both flows do in related states: the same action, or (past the actions) related continuations *)
@@ -134,7 +133,7 @@ Lemma act_step u m i pc a N :
 Proof.
   intros Hi HN Ha Hpc. split.
   - apply (lts_act Fl i (node_of U ustr m) pc []); [apply flow_nth, Hi|]. rewrite node_of_actions, nth_error_map, Hpc. reflexivity.
-  - apply (lts_act Rf (kap u) (to_node (kap u) N) pc [5%N; N.of_nat (kap u); N.of_nat pc]); [apply (ref_nth Rs), HN|].
+  - apply (lts_act Rf (kap u) (to_node (kap u) N) pc [5%N; N.of_nat (kap u); N.of_nat pc]); [apply (ref_nth nodesR), HN|].
     rewrite ref_actions_nth, Ha, nth_error_map, Hpc. reflexivity.
 Qed.
 
@@ -155,7 +154,7 @@ Lemma tail_R u m N : nth_error nodesR (kap u) = Some N -> rn_actions N = map (ac
   | Some r => KDec (router_sig r) (router_branches Rf (to_node (kap u) N) r)
   end.
 Proof.
-  intros HN Ha. apply (lts_tail Rf (kap u) _ _ (ref_nth Rs _ _ HN)). rewrite ref_actions_nth, Ha.
+  intros HN Ha. apply (lts_tail Rf (kap u) _ _ (ref_nth nodesR _ _ HN)). rewrite ref_actions_nth, Ha.
   assert (E : nth_error (map (act_payload U) (ToRows.n_actions m)) (List.length (ToRows.n_actions m)) = None)
     by (apply nth_error_None; rewrite map_length; lia).
   rewrite E. reflexivity.
